@@ -87,6 +87,7 @@ MCNext ==
   \/ /\ pc = "idle" /\ Len(hist) < D
      /\ \E e \in Ops : Canon(e) /\ (CallAtomic(e) \/ GetCall(e)) /\ hist' = Append(hist, e)
   \/ StepGet /\ UNCHANGED hist
+  \/ pc = "idle" /\ Len(hist) = D /\ UNCHANGED <<mvars, hist>>   \* program complete: the only deadlocks left are stuck calls
 
 \* --- checked on the model --------------------------------------------------
 Conforms     == Judged(KD) \in ({"ok"} \cup KD)      \* every completed call is accepted (ideal or listed deviation)
